@@ -37,7 +37,7 @@ TASK: produce THREE INDEPENDENT changes (numbered 1, 2, 3), each of which alone 
 4. Save the change alone: `git -C {wt} diff -- src > /tmp/{pid}{n}-change-k.patch`.
 When all three are done: `git -C {wt} checkout -- src` (leave the tree clean, with the three untracked demo files in tests/), and remove the build output (`rm -rf {wt}/target`).
 
-STYLE for this round: think like a protocol tester rather than a code reader. Pick three DIFFERENT legal-but-unusual behaviours of the peer or of the API user that the specifications (MS-RDPBCGR, T.125/T.124, MS-NLMP, MS-CSSP, X.690/X.691) or the public API allow — an optional field present or absent, a legal flag combination nobody sets, a value at the edge of its legal range, a size at a power of two or a multiple of an internal block size, an object used a second time, two operations in the opposite order, an empty or a maximal collection, a message arriving earlier or later than usual — and make the client handle each one wrongly by a small plausible change. The ideas listed below show what has been tried; do not vary them: find behaviours none of them relies on. At least one of the three must need a SEQUENCE of two or more operations or messages (not one input) to show.
+STYLE for this round: two conditions at once, and what happens after something went wrong. Make each bug need the COINCIDENCE of two things that are each common on their own — two settings of the configuration, a setting and a property of the peer's message, a message kind and the state the object is in, a size and an alignment, a flag of the header and a length form, a feature and an error — so that testing each condition alone (or all single deviations from a default) shows nothing. Good places: code shared by two paths where one caller passes a slightly different argument; an `if a && b` that should be `a || b` or the reverse; a default that is only right when another option has its default too; a clean-up or error path that leaves half-updated state which only matters if the caller continues; a value computed before an adjustment and used after it; a bound checked against one field and applied to another; handling that is correct for the first element of a list but not for later ones; something that only differs for the LAST element / the last byte of a block. At least one of your three changes must be on an error / refusal / early-return path (what the object does AFTER it returned an error once, or after the peer refused something), and at least one must need a pair of non-default settings or message features together.
 
 These ideas have ALREADY been used by others for this property — do something different from all of them: {' | '.join(used) if used else '(none)'}
 
